@@ -91,7 +91,9 @@ def evaluate(ck, dcases, stats, what, coq_eval, tag):
 
 def coverage(stats):
     return {"dynamic_kernel_traces_validated": stats.get("dyn_traces", 0), "dynamic_kernel_calls_compared": stats.get("dyn_calls", 0),
-            "dynamic_kernel_final_trees_compared": stats.get("dyn_trees", 0), "dynamic_kernel_traces_leaving_the_model": stats.get("dyn_left_model", 0)}
+            "dynamic_kernel_final_trees_compared": stats.get("dyn_trees", 0), "dynamic_kernel_traces_leaving_the_model": stats.get("dyn_left_model", 0),
+            "model_executions_compared_with_the_library": stats.get("exec_runs", 0), "model_executions_agreeing": stats.get("exec_agree", 0),
+            "model_executions_leaving_the_model": stats.get("exec_left_model", 0)}
 
 
 # ---- tie T3: the model program on the model kernel vs the library on the real kernel ----------------------------------
